@@ -63,6 +63,7 @@ type leaseFacade struct {
 	dead     int32
 	casCount int32
 	faultAt  int32  // inject on the k-th CAS (1-based), 0 = never
+	faultOdd bool   // inject on every odd CAS (each failed renewal is followed by a successful retry)
 	faultKnd string // "lost" or "replylost"
 }
 
@@ -88,7 +89,7 @@ func (f *leaseFacade) CasByVersion(ctx context.Context, r kvs.Record) (kvs.Recor
 		f.s.log(map[string]any{"e": "cas", "p": f.p, "res": "dead", "exp": 0, "n": n})
 		return kvs.Record{}, errInjected
 	}
-	if n == f.faultAt && f.faultKnd == "lost" {
+	if (n == f.faultAt || f.faultOdd && n%2 == 1) && f.faultKnd == "lost" {
 		f.s.log(map[string]any{"e": "cas", "p": f.p, "res": "lost", "exp": 0, "n": n})
 		return kvs.Record{}, errInjected
 	}
@@ -209,6 +210,7 @@ func runLeaseScenario(sc leaseScenario) (*leaseSys, bool) {
 	ttl := sc.TTL.Microseconds()
 	holder, contender, waiter := ps[0], ps[1], ps[2]
 	holder.fac.faultAt, holder.fac.faultKnd = int32(sc.FaultAt), sc.Fault
+	holder.fac.faultOdd = sc.FaultAt < 0
 	s.events[0]["kind"] = sc.Kind
 	s.events[0]["fault"] = sc.Fault
 	if !holder.locker.TryLock(context.Background()) {
@@ -266,6 +268,13 @@ func runLeaseScenario(sc leaseScenario) (*leaseSys, bool) {
 			err := waiter.locker.LockWithCtx(ctx)
 			if err == nil {
 				s.log(map[string]any{"e": "wacq", "p": 3})
+				// the new holder waited a long time for the lock: its own lease must be in order from now on
+				s.log(map[string]any{"e": "acq", "p": 3})
+				until := s.now() + 3*ttl/2
+				for s.now() < until {
+					s.sleepUntil(min64(until, s.now()+ttl/5))
+					s.probe()
+				}
 				s.log(map[string]any{"e": "rel", "p": 3})
 				waiter.locker.Unlock()
 				s.log(map[string]any{"e": "unlocked", "p": 3})
@@ -281,11 +290,11 @@ func runLeaseScenario(sc leaseScenario) (*leaseSys, bool) {
 		s.mu.Unlock()
 		select {
 		case <-done:
-		case <-time.After(time.Duration(2*ttl)*time.Microsecond + 4*time.Second):
+		case <-time.After(time.Duration(4*ttl)*time.Microsecond + 4*time.Second):
 		}
-		s.probe()
 		cancel()
 		<-done
+		s.probe()
 	}
 	s.log(map[string]any{"e": "end"})
 	for _, p := range ps {
@@ -319,6 +328,8 @@ func driveLease(opt *Options) error {
 			for k := 1; k <= 5; k++ {
 				scs = append(scs, leaseScenario{Kind: "hold", TTL: ttl, Periods: 5, FaultAt: k, Fault: "lost"})
 			}
+			// every other renewal call fails transiently, over a long hold
+			scs = append(scs, leaseScenario{Kind: "hold", TTL: ttl, Periods: 10, FaultAt: -1, Fault: "lost"})
 			for ph := 0; ph < 8; ph++ {
 				scs = append(scs, leaseScenario{Kind: "death", TTL: ttl, Periods: 2 + rnd.Intn(3), Phase: ph})
 				scs = append(scs, leaseScenario{Kind: "unlockrace", TTL: ttl, Periods: 1 + rnd.Intn(3), Phase: ph})
